@@ -74,22 +74,36 @@ var siteTable = []struct {
 	{"enterprise.checkArgs", "ci.Args[0].(string)", -1, "eCheckArgs0"},
 	{"enterprise.checkRPCPermissions", "values[0]", -1, "eRpcVals0"},
 	{"enterprise.(*Conf).Validate", "strings.Split(v, \":\")[1]", -1, "cRpcSplit"},
-	{"enterprise.getAdmins", "data[i:i+types.AddressLength]", -1, "gAdmins"},
+	{"enterprise.getAdmins", "data[i : i+types.AddressLength]", -1, "gAdmins"},
+	{"enterprise.ValidateChangeCluster", "ci.Args[0]", -1, "eCc0"},
 	{"enterprise.ExecuteEnterpriseTx", "context.Call.Args[1]", -1, "xEnable1"},
 	{"enterprise.ExecuteEnterpriseTx", "context.ArgsAny[0]", -1, "xAny0"},
 	{"enterprise.ExecuteEnterpriseTx", "context.Args[0]", -1, "xCtx0"},
 }
 
-// class id of a confirmed finding, per site (known_findings.json lists them).
+// class id of a confirmed finding, per stage/site (known_findings.json lists them); any other
+// stage/site is reported without a class, i.e. as a new violation.
 var knownClass = map[string]string{
-	"tNameUpdTo":  "C14-validateNameTx-updateName-arg1",
-	"tNameOwner0": "C14-validateNameTx-setOwner-noargs",
-	"vDaoVal":     "C14-newVoteCmd-voteDAO-noarg",
-	"eAdmin0":     "C14-enterprise-appendAdmin-arg0",
-	"eCheckArgs0": "C14-enterprise-checkArgs-arg0",
-	"rAddSlice":   "C14-addVote-voteBP-candidate-length",
-	"rSubNil":     "C14-subVote-corrupt-old-vote",
-	"gAdmins":     "C14-getAdmins-short-admin",
+	"admission/tNameUpdTo":  "C14-validateNameTx-updateName-arg1",
+	"admission/tNameOwner0": "C14-validateNameTx-setOwner-noargs",
+	"admission/eAdmin0":     "C14-enterprise-appendAdmin-arg0",
+	"admission/eCheckArgs0": "C14-enterprise-checkArgs-arg0",
+	"admission/gAdmins":     "C14-getAdmins-short-admin",
+	"execution/vDaoVal":     "C14-newVoteCmd-voteDAO-noarg",
+	"execution/rAddSlice":   "C14-addVote-voteBP-candidate-length",
+	"execution/rSubNil":     "C14-subVote-corrupt-old-vote",
+}
+
+var reported = map[string]int{}
+
+// report records a failure of the property; the first of each stage/site carries the replay.
+func report(run *vh.Run, what, stage, site string, rp interface{}) {
+	k := stage + "/" + site
+	reported[k]++
+	run.Count("finding:" + k)
+	if reported[k] == 1 {
+		run.FailKnown(what, knownClass[k], rp)
+	}
 }
 
 var srcCache = map[string][]string{}
@@ -104,7 +118,7 @@ func srcLines(file string) []string {
 	return l
 }
 
-func squash(s string) string { return strings.Join(strings.Fields(s), " ") }
+func squash(s string) string { return strings.Join(strings.Fields(s), "") }
 
 // siteOf finds the innermost frame of the aergo module in a panic stack and names its site.
 func siteOf(stack string) string {
@@ -507,11 +521,17 @@ func (w *world) facts(tx *types.Tx, stNonce uint64, cons string) string {
 		kv("when", strconv.FormatUint(st.GetWhen(), 10))
 		kv("smin", system.GetStakingMinimum().String())
 		vrec, oldok := "", ""
+		var vamt []string
 		for _, is := range issues {
 			k := []byte(is)
 			v, err := system.GetVote(scs, sender, k)
 			has := err == nil && v != nil && v.Amount != nil
 			vrec += b01(has)
+			if has {
+				vamt = append(vamt, v.GetAmountBigInt().String())
+			} else {
+				vamt = append(vamt, "0")
+			}
 			ok := true
 			if has {
 				tally := map[string]bool{}
@@ -541,6 +561,7 @@ func (w *world) facts(tx *types.Tx, stNonce uint64, cons string) string {
 		}
 		kv("vrec", vrec)
 		kv("oldok", oldok)
+		kv("vamt", strings.Join(vamt, ","))
 		// capacity of the candidate buffer newVoteCmd grows with append (a Go runtime fact)
 		var cbuf []byte
 		if jsonOK {
@@ -731,11 +752,11 @@ func (w *world) runCase(c *txCase, commit bool) (admit, exec string) {
 			Type: tx.Body.Type.String(), Payload: string(c.payload), Stage: stage, Panic: r.msg, Site: r.site}
 	}
 	if ar.panicked {
-		run.FailKnown("admission of an untrusted transaction panics in "+ar.site+": "+ar.msg, knownClass[ar.site], mk("admission", ar))
+		report(run, "admission of an untrusted transaction panics in "+ar.site+": "+ar.msg, "admission", ar.site, mk("admission", ar))
 	}
 	if er.panicked {
 		if admit == "ok" {
-			run.FailKnown("an admitted transaction panics in block execution at "+er.site+": "+er.msg, knownClass[er.site], mk("execution", er))
+			report(run, "an admitted transaction panics in block execution at "+er.site+": "+er.msg, "execution", er.site, mk("execution", er))
 		} else {
 			run.Count("exec-panic-of-non-admitted-tx")
 		}
@@ -771,7 +792,7 @@ func (w *world) valCase(c *txCase) {
 	w.run.Op(op, "val="+out, out == "ok" || r.panicked)
 	w.run.Count("val:" + out)
 	if r.panicked {
-		w.run.FailKnown("Validate panics in "+r.site+": "+r.msg, knownClass[r.site], replay{World: w.worldName(), Rcpt: string(c.rcpt),
+		report(w.run, "Validate panics in "+r.site+": "+r.msg, "admission", r.site, replay{World: w.worldName(), Rcpt: string(c.rcpt),
 			Type: tx.Body.Type.String(), Payload: string(c.payload), Stage: "Validate", Panic: r.msg, Site: r.site})
 	}
 	// the rest of the pipeline has no model for non-governance types; still: it must not panic
